@@ -121,6 +121,11 @@ int main(int argc, char** argv)
     CDNS::CdnsExporter writer(file_preamble, output_file, CDNS::CborOutputCompression::NO_COMPRESSION);
 
     for (auto input: input_files) {
+        // Inputs that weren't accepted in the first pass (unreadable or with a different
+        // 'major.minor.private' version) contribute nothing to the output
+        if (block_indexes.find(input) == block_indexes.end())
+            continue;
+
         try {
             std::ifstream ifs(input, std::ifstream::binary);
             CDNS::CdnsReader reader(ifs);
